@@ -157,21 +157,6 @@ harnesses! {
         reach!("end");
         core::mem::forget(t);
     }
-    fn c08_t_display_amino_k11_u128 [14] {
-        // 66 bits: the last symbol straddles the two storage words
-        let v = any_u128();
-        assume(v < (1u128 << 66));
-        let k = kmer128::<Amino, 11>(v);
-        let t = k.to_string();
-        let bytes = t.as_bytes();
-        assert!(bytes.len() == 11, "C08.display.one_char_per_symbol");
-        let i = any_usize();
-        assume(i < 11);
-        let code = oracle::AMINO.from_bits[isym(v, 6, i) as usize] as usize;
-        assert!(bytes[i] == oracle::AMINO.to_char[code], "C08.display.char_i_is_symbol_i");
-        reach!(i == 10, "straddling symbol");
-        core::mem::forget(t);
-    }
     fn c08_q_from_str_dna_k2 [10] {
         // Kmer::from_str: right length and valid text -> those symbols; otherwise an error, never a padded/truncated k-mer
         let b = any_u8();
